@@ -97,6 +97,8 @@ pub fn eval(expr: Node) -> Result<f64, Box<dyn error::Error>> {
             if sub_result >= 0.0 {
                 if (sub_result % 1.0) > 0.0 {
                     Ok(gamma(sub_result + 1.0))
+                } else if sub_result > 170.0 {
+                    Ok(f64::INFINITY)
                 } else {
                     let mut factorial_result = 1.0;
                     for i in 2..=(sub_result as usize) {
@@ -118,7 +120,10 @@ pub fn eval(expr: Node) -> Result<f64, Box<dyn error::Error>> {
             if sub_expr < -min_one.exp() {
                 return Err("The Lambert W function is not defined for {}.".into());
             }
-            let iterations = (4).max((sub_expr.log10() / 3.0).ceil() as i32);
+            if sub_expr == f64::INFINITY {
+                return Ok(f64::INFINITY);
+            }
+            let iterations = (4).max((sub_expr.log10() / 3.0).ceil() as i32).min(128);
             let mut w: f64 = 0.0;
             for _ in 0..iterations {
                 #[cfg(feature = "verif_hooks")]
@@ -136,6 +141,9 @@ pub fn eval(expr: Node) -> Result<f64, Box<dyn error::Error>> {
             while n > 1.0 {
                 #[cfg(feature = "verif_hooks")]
                 crate::verif_hooks::tick();
+                if x >= 64.0 {
+                    return Ok(f64::INFINITY);
+                }
                 x += 1.0;
                 n = (n.log10() / b.log10()).floor();
             }
